@@ -7,11 +7,14 @@ class C12(Prop):
     id = "C12"
     title = "UE address, TEID and UPF address are extracted exactly from the setup request"
     lean_module = "Stgutg.Props.C12"
-    extra_modules = ["Stgutg.Props.Glue.stgutg_DecodePDUSessionNASPDU", "Stgutg.Props.Glue.stgutg_DecodePDUSessionResourceSetupRequestTransfer", "Stgutg.Props.Glue.stgutg_FindPDUSessionResourceSetupListSUReq", "Stgutg.Props.Glue.stgutg_EstablishPDU"]
-    gen = ["extract", "procs"]
-    theorems = ["Stgutg.Props.GluePinned." + t for t in [
+    extra_modules = ["Stgutg.Props.Glue.stgutg_FindPDUSessionResourceSetupListSUReq", "Stgutg.Props.Glue.stgutg_EstablishPDU",
+                     "Stgutg.Proofs.GenTieExtract", "Stgutg.Gen.PureSelftestExt", "Stgutg.Gen.PureSelftest"]
+    gen = ["extract", "procs", "pure-extract", "pure-selftest-ext", "pure-selftest"]
+    theorems = ["Stgutg.Proofs.GenTie.Extract." + t for t in [
+        # the two extractors ARE the hand model: translated from the source text on every run (gen pure-extract)
+        "DecodePDUSessionNASPDU_eq", "DecodePDUSessionResourceSetupRequestTransfer_eq", "decodeNasPdu_eq", "decodeTransferPdu_eq"]] + ["Stgutg.Props.GluePinned." + t for t in [
         # the glue functions this property depends on are still the text the models were written from (gen procs)
-        "stgutg_DecodePDUSessionNASPDU", "stgutg_DecodePDUSessionResourceSetupRequestTransfer", "stgutg_FindPDUSessionResourceSetupListSUReq", "stgutg_EstablishPDU"]] + ["Stgutg.Props.C12." + t for t in [
+        "stgutg_FindPDUSessionResourceSetupListSUReq", "stgutg_EstablishPDU"]] + ["Stgutg.Props.C12." + t for t in [
         "C12_ip", "C12_ip_pdu", "C12_ip_size",
         "C12_teid_upf_container", "C12_teid_upf",
         "C12_terminates_nas", "C12_terminates_nas_pdu", "model_is_repaired",
@@ -28,7 +31,8 @@ class C12(Prop):
             "socketpair against requests with/without RAN Paging Priority and NAS-PDU; random, truncated and mutated byte "
             "strings with hidden capacity (classes ok/panic/hang). non-trivial = an extraction that returned an address; "
             "distinct by op line")
-    trusted_base = ["the op lines of acc/xfer carry the parameters; the Lean driver re-encodes them with Spec/SetupRequest.lean, "
+    trusted_base = ["TIE BY TRANSLATION of the two extractors (gen pure-extract, harness/cmd/gen/pure_extract.go -> lean/Stgutg/Gen/PureExtract.lean, regenerated from the source text of src/stgutg/pdu.go on every run): DecodePDUSessionNASPDU and DecodePDUSessionResourceSetupRequestTransfer, with the package-level tables PDUSessionEstablishmentAcceptOptionalElementsLength (a constant association list) and ...HalfByte (the range loop over it unrolled) read from the same text. Theorems Proofs.GenTie.Extract.DecodePDUSessionNASPDU_eq (for EVERY fuel and EVERY slice = octets, length, capacity and the octets behind the length: generated = Model.Extract.decodeNas in its repaired variant, projected to the visible octets of the returned address) and DecodePDUSessionResourceSetupRequestTransfer_eq (the same against decodeTransfer, for slices of fewer than 2^62 octets: the model counts offsets in unbounded naturals, the code in 64-bit ints), plus decodeNasPdu_eq / decodeTransferPdu_eq for the functions the C12 theorems are about. For these two functions the translation tie REPLACES the text pin: renamed locals, x++ for x += 1, parentheses, x = x + k keep the theorems; a semantic edit (a skip one octet short, a length indicator of the wrong width, a table entry) breaks them whatever input would show it. Trusted here instead of sampling: the slice-walker grammar (described at the top of pure_extract.go; anything else fails closed with file:line) and its runtime Gen/PureRtSl.lean: a []byte (net.IP) is its backing array from the first element on plus its length, s[i] and s[a:] are checked against len, s[a:b] against CAP (so octets behind the length can be reached, as in Go), binary.BigEndian.Uint16/32 trap on fewer than 2/4 octets, int arithmetic wraps at 64 bits (Gen/PureRt.lean), uint16 arithmetic wraps; a `for cond` loop is a recursion on FUEL that every translated function takes as an argument (outliving it = hang; the C12 termination theorems prove cap+1 suffices); no translated function writes to memory, so slices are values; the two tables are constants BECAUSE the translator checks that nothing else in their package uses them (go/types Uses) and no other .go file of the repo mentions them. NOT described, as by the hand model: that the returned slices alias the argument; nil versus empty; a 32-bit int. The grammar and runtime are checked against the Go compiler on every run: gen pure-selftest-ext translates harness/cmd/gen/pureselftest/ext.go (every construct) and writes the outcomes of EXECUTING the compiled functions beside the translation (Gen/PureSelftestExt.lean: 479 calls on slices with hidden capacity, 260 of them panics, 17 with fuel one short of what the walk needs, as kernel-checked equalities); the integer runtime shared with the other pure-* groups by gen pure-selftest (Gen/PureSelftest.lean). FindPDUSessionResourceSetupListSUReq is NOT translated (nested pointer tests, a range over a list of structs returning a pointer: outside both grammars) and stays pinned",
+                    "the op lines of acc/xfer carry the parameters; the Lean driver re-encodes them with Spec/SetupRequest.lean, "
                     "the Go side with the library encoders (encacc/encxfer compare the two encodings)",
                     "EstablishPDU is run over an AF_UNIX SOCK_SEQPACKET pair (no kernel SCTP)"]
     partial_note = ("The theorems are about the hand model (tied by the extract correspondence run, which executes the real "
@@ -38,7 +42,8 @@ class C12(Prop):
                     "non-dynamic 5QI and no optional component. EstablishPDU's use of the two functions is covered by the IE "
                     "selection theorem plus the process-level establish op, not by a model of the whole procedure.")
     level_text = ("Lean theorems over an executable model of the two extractors (Go slice semantics incl. capacity) for all "
-                  "spec-built accepts/transfers and all byte strings (termination); model tied to the code by differential runs")
+                  "spec-built accepts/transfers and all byte strings (termination); model proved equal to the translation of the "
+                  "two functions' source text (gen pure-extract) and also run differentially")
     assumptions = ["payload container shorter than 65530 octets (uint16 offset arithmetic in the extractor)",
                    "the N2 message fits the 2048-octet receive buffer of EstablishPDU (not part of the extraction functions)"]
 
